@@ -68,3 +68,7 @@ Proof.
   intros Hin. apply Hna. apply in_map_iff in Hin. destruct Hin as (x & Hx & Hin). apply filter_In in Hin.
   rewrite <- Hx. apply in_map. tauto.
 Qed.
+Lemma firstn_plus {A} n m (l : list A) : firstn (n + m) l = firstn n l ++ firstn m (skipn n l).
+Proof. revert l. induction n as [|n IH]; intros l; [reflexivity|]. destruct l as [|a l]; cbn [plus firstn skipn app]; [destruct m; reflexivity|]. rewrite IH. reflexivity. Qed.
+Lemma skipn_plus {A} n m (l : list A) : skipn m (skipn n l) = skipn (n + m) l.
+Proof. revert l. induction n as [|n IH]; intros l; [reflexivity|]. destruct l as [|a l]; cbn [plus skipn]; [destruct m; reflexivity|]. apply IH. Qed.
